@@ -18,8 +18,9 @@ package main
 //    the set of stateful literals they may hold; calls through interfaces and func values are not followed.
 //
 // 2. handoverSites : List (String × String × String) — (function, variable, word): for every function that hands a
-//    local variable or parameter on directly (channel send, `X.Put(v)`, `X.Release(v)`, `X.Report(v)`,
-//    `releaseSample(v)`), what the function does with the variable in source order along one path: U = any use, G = the
+//    local variable or parameter on (channel send, `X.Put(v)`, `X.Release(v)`, `X.Report(v)`, `releaseSample(v)`, or a
+//    call `f(…, v, …)` of a function of the scanned packages that hands that parameter on — a fixpoint over all
+//    functions), what the function does with the variable in source order along one path: U = any use, G = the
 //    hand-over (a deferred hand-over comes last; a block that returns does not continue into what follows it; a
 //    hand-over inside a loop whose variable lives across iterations is followed by the loop body once more).
 //
